@@ -58,6 +58,7 @@ struct Scenario {
    bool cfg_force = false;
    std::vector<std::string> fault_kinds; ///< which kinds of damage/fault the plan applied
    bool base_intact = true;         ///< document is byte-identical to a corpus file
+   bool clean_doc = false;          ///< a shipped file plus harness-written (well-formed) additions only: every line is a comment, a block definition or an indented data line
 };
 
 inline std::vector<size_t> line_starts(const std::string& d)
@@ -102,20 +103,20 @@ inline void apply_op(Scenario& s, const Corpus& corpus, const std::vector<std::s
    if (t.empty() || t[0][0] == '#') return;
    const std::string& op = t[0];
    auto num = [&](size_t i) -> long long { return i < t.size() ? sim::iparse(t[i]) : 0; };
-   auto damaged = [&](const char* kind) { s.base_intact = false; s.cfg_known_format = -1; note_fault(s, kind); };
+   auto damaged = [&](const char* kind) { s.base_intact = false; s.clean_doc = false; s.cfg_known_format = -1; note_fault(s, kind); };
    std::string& d = s.doc;
    if (op == "base") {
       if (t.size() >= 3 && t[1] == "corpus") {
          const int k = corpus.find(t[2]);
-         if (k >= 0) { d = corpus.files[k].bytes; s.type = corpus.files[k].type; s.base_intact = true; }
-         else { d.clear(); s.base_intact = false; }
-      } else if (t.size() >= 2 && t[1] == "empty") { d.clear(); s.base_intact = false; note_fault(s, "empty_document"); }
+         if (k >= 0) { d = corpus.files[k].bytes; s.type = corpus.files[k].type; s.base_intact = true; s.clean_doc = true; }
+         else { d.clear(); s.base_intact = false; s.clean_doc = false; }
+      } else if (t.size() >= 2 && t[1] == "empty") { d.clear(); s.base_intact = false; s.clean_doc = false; note_fault(s, "empty_document"); }
       else if (t.size() >= 4 && t[1] == "random") {
          sim::Rng r((uint64_t)num(3));
          const size_t n = (size_t)(num(2) % 65537);
          d.resize(n);
          for (auto& c : d) c = (char)r.below(256);
-         s.base_intact = false; note_fault(s, "random_bytes");
+         s.base_intact = false; s.clean_doc = false; note_fault(s, "random_bytes");
       } else if (t.size() >= 4 && t[1] == "randomtext") { // printable soup with SLHA-like words
          sim::Rng r((uint64_t)num(3));
          const size_t n = (size_t)(num(2) % 65537);
@@ -123,7 +124,7 @@ inline void apply_op(Scenario& s, const Corpus& corpus, const std::vector<std::s
                                              "1", "2", "0", "3", "24", "1000022", "1e3", "-1", "nan", "1.5", "4", "5", "6", "33", "DECAY", "NMIX", "VCKMIN", "GM2CalcOutput", "SPINFO", "\t", "\r\n"};
          d.clear();
          while (d.size() < n) { d += words[r.below(sizeof words / sizeof words[0])]; d += r.chance(0.7) ? " " : ""; }
-         s.base_intact = false; note_fault(s, "random_text");
+         s.base_intact = false; s.clean_doc = false; note_fault(s, "random_text");
       }
       s.cfg_known_format = -1;
    } else if (op == "trunc") {
